@@ -42,6 +42,80 @@ def run(F, ck, tier):
         n += zips.check_zips(ck, 'R05.6', F, e1, {'instance', 'params', 'challenges'}, ['fri/verifier.rs', 'fri/validate_shape.rs'])
         n += zips.check_zips(ck, 'R05.6', F, e2, {'instances', 'params', 'challenges', 'degree_bits'}, ['batch_fri/verifier.rs', 'fri/validate_shape.rs', 'fri/verifier.rs'])
     ck.floor('R05.6', 'zip operands with caller/proof-derived length', n, 6)
+    # ---------------------------------------------------------------- R05.8 the constant-arity schedule stops at the cap
+    ck.rule('R05.8', 'ConstantArityBits schedules another reduction only while (degree_bits + rate_bits - arity_bits) - cap_height >= 0, i.e. the layer that would be committed is not smaller than the cap (comparison normalised algebraically)')
+    from . import poly
+    ra = [f for f in F.find('FriReductionStrategy::reduction_arity_bits', crate='plonky2') if f.body is not None]
+    if not ra:
+        ck.ob('R05.8', 'anchor', False, 'ANCHOR-MISSING FriReductionStrategy::reduction_arity_bits')
+    else:
+        want = {('@degree_bits',): 1, ('@rate_bits',): 1, ('@arity_bits',): -1, ('@cap_height',): -1}
+        diffs = poly.cmp_diffs(poly.Ev(F), ra[0])
+        capd = [(d, n) for d, n in diffs if any('@cap_height' in m for m in d)]
+        okc = any(d == want for d, n in capd)
+        ck.ob('R05.8', 'schedule.cap-guard', okc, 'guard: degree_bits + rate_bits - arity_bits - cap_height >= 0' if okc else
+              'SCHEDULE GUARD: the ConstantArityBits loop compares with the cap height as %s >= 0 instead of degree_bits + rate_bits - arity_bits - cap_height >= 0: for arity_bits > cap_height '
+              'a reduction is scheduled whose layer has fewer leaves than the cap, and the prover panics when it builds that Merkle tree' % ([poly.show(d) for d, n in capd] or 'nothing'),
+              capd[0][1].get('s') if capd else '%s:%d' % (ra[0].file, ra[0].line))
+    # ---------------------------------------------------------------- R05.9 batch FRI mixes a smaller instance in with an independent weight
+    ck.rule('R05.9', 'when batch FRI folds the next (smaller) instance into the running codeword, the fresh evaluation enters by a final ADDITION and is not itself multiplied by the round challenge: folded * beta + fresh. '
+                     '(folded + fresh) * beta gives both the same weight, so correlated non-low-degree functions cancel')
+
+    def _has_beta(n):
+        return any((y.get('k') == 'Local' and y.get('n') == 'beta') or (y.get('k') == 'Field' and y.get('n') == 'fri_betas') for y in walk(n))
+
+    def _bare(n):
+        while n.get('k') in ('Un', 'Ref', 'Paren'):
+            n = n['e']
+        return n.get('k') == 'Local'
+    nmix = 0
+    for q, kind in (('batch_fri::verifier::batch_fri_verifier_query_round', 'native'), ('batch_fri::prover::batch_fri_committed_trees', 'native'),
+                    ('CircuitBuilder::batch_fri_verifier_query_round', 'circuit')):
+        fs = [f for f in F.find(q, crate='plonky2') if f.body is not None and 'batch_fri' in f.file]
+        if len(fs) != 1:
+            ck.ob('R05.9', 'anchor:' + q, False, 'ANCHOR-MISSING %s (%d)' % (q, len(fs)))
+            continue
+        fn = fs[0]
+        if kind == 'native':
+            # outermost arithmetic nodes that mention the round challenge together with another operand
+            tops = []
+
+            def rec(n, inside):
+                if isinstance(n, list):
+                    for x in n:
+                        rec(x, inside)
+                    return
+                if not isinstance(n, dict):
+                    return
+                arith = n.get('k') == 'Bin' and n.get('op') in ('Add', 'Mul', 'Sub')
+                if arith and not inside and _has_beta(n):
+                    tops.append(n)
+                for k_, v in n.items():
+                    if isinstance(v, (dict, list)):
+                        rec(v, inside or arith)
+            rec(fn.body, False)
+            tops = [t for t in tops if not (t['op'] == 'Mul' and (_bare(t['l']) and _bare(t['r'])) and False)]
+            for t in tops:
+                nmix += 1
+                okm = t['op'] == 'Add' and ((_bare(t['l']) and not _has_beta(t['l'])) or (_bare(t['r']) and not _has_beta(t['r'])))
+                ck.ob('R05.9', 'mix:%s#%d' % (fn.qual, nmix), okm, 'folded * beta + fresh' if okm else
+                      'BATCH FOLD-IN WITHOUT INDEPENDENT WEIGHT: in %s the expression that involves the round challenge is not of the form folded * beta + fresh (the fresh evaluation alone as one summand): '
+                      'the instance folded in shares its random weight with the running codeword' % fn.qual, t.get('s'))
+        else:
+            for blk in walk(fn.body):
+                if blk.get('k') != 'Block':
+                    continue
+                ass = [s_ for s_ in blk.get('st', []) if s_.get('k') == 'Assign' and s_['l'].get('k') == 'Local' and s_['l'].get('n') == 'old_eval' and s_['r'].get('k') == 'MCall' and
+                       s_['r'].get('n') in ('mul_extension', 'add_extension', 'mul_add_extension', 'arithmetic_extension')]
+                if not ass or not any(_has_beta(s_['r']) for s_ in ass):
+                    continue
+                nmix += 1
+                last = ass[-1]['r']
+                okm = (last['n'] == 'add_extension' and not _has_beta(last) and any(_bare(a) and a.get('n') != 'old_eval' for a in last['a'])) or \
+                      (last['n'] == 'mul_add_extension' and len(last['a']) == 3 and _bare(last['a'][2]) and not _has_beta(last['a'][2]))
+                ck.ob('R05.9', 'mix:%s#%d' % (fn.qual, nmix), okm, 'folded * beta + fresh' if okm else
+                      'BATCH FOLD-IN WITHOUT INDEPENDENT WEIGHT: in %s the last operation on old_eval in the mix-in block is not the addition of the fresh evaluation alone' % fn.qual, last.get('s'))
+    ck.floor('R05.9', 'mix-in expressions (prover, native verifier, circuit)', nmix, 3)
     ck.decided += ['every check of fri::verifier / batch_fri::verifier exists, is error-propagating, depends on the proof/challenge data it must depend on, and its loop covers the whole sequence']
     ck.undecided += ['sufficiency of the checks (algebra)', 'arity-schedule arithmetic', 'prover completeness']
     return ('Decides structural necessary conditions of C05 on the native FRI and batch-FRI verifiers: presence, propagation, data dependence and full iteration of each check. '
